@@ -6,6 +6,7 @@ var Registry = map[string]func(tier, replay string) int{
 	"C13": RunC13,
 	"C14": RunC14,
 	"C15": RunC15,
+	"C19": RunC19,
 }
 
 // Worker dispatches worker-subprocess modes (generation, scanning) used by the scratch pipeline.
